@@ -48,9 +48,13 @@ def rstr(rng, maxlen, in_array=False, torture=False):
     while True:
         n = rng.randint(0, maxlen)
         if torture:
-            m = rng.randint(0, 9)
+            m = rng.randint(0, 10)
             if m == 0:
                 s = ''
+            elif m == 10:
+                # ASCII control characters that some "split into lines / words" routines treat as separators
+                # (VT, FF, FS, GS, RS, US) next to ordinary text
+                s = ''.join(rng.choice('ab 1\x0b\x0c\x1c\x1d\x1e\x1f') for _ in range(n))
             elif m == 1:
                 s = ' ' * rng.randint(1, max(1, maxlen))
             elif m == 2:
